@@ -27,6 +27,8 @@ type GenCfg struct {
 	Resources    bool
 	Volatile     bool
 	Retain       bool
+	MapBias      bool // prefer typed-map map calls
+	RetainDup    bool // retain lists with several, partly repeated, entries
 	NestedMaps   bool // allow map calls inside map-called pipelines (see DESIGN.md: known findings)
 	DisabledMappedPipeline bool // allow a disabled modifier on a map call of a pipeline
 	InvariantInMapped bool // allow calls that do not depend on the mapped element inside map-called pipelines
@@ -211,7 +213,20 @@ func (g *gen) genStage() {
 			s.Volatile = "false"
 		}
 	}
-	if g.cfg.Retain && g.cfg.Files && g.pick(2) == 0 {
+	if g.cfg.RetainDup && g.cfg.Files {
+		// several retained outputs, some named twice (legal MRO)
+		for _, o := range s.Outs {
+			if g.p.IsFileType(o.T.Base) {
+				s.Retain = append(s.Retain, o.Name)
+				if g.pick(2) == 0 {
+					s.Retain = append(s.Retain, o.Name)
+				}
+			}
+		}
+		if len(s.Retain) > 1 && g.pick(2) == 0 {
+			s.Retain[0], s.Retain[len(s.Retain)-1] = s.Retain[len(s.Retain)-1], s.Retain[0]
+		}
+	} else if g.cfg.Retain && g.cfg.Files && g.pick(2) == 0 {
 		for _, o := range s.Outs {
 			if g.p.IsFileType(o.T.Base) {
 				s.Retain = append(s.Retain, o.Name)
@@ -475,7 +490,7 @@ func (g *gen) genPipeline(last bool) {
 		if g.cfg.MapCalls && g.pick(3) == 0 && (g.cfg.NestedMaps || !g.hasMap[callee]) {
 			// try to make it a map call: pick parameters to split
 			kind := byte('a')
-			if g.cfg.TypedMaps && g.pick(3) == 0 {
+			if g.cfg.TypedMaps && (g.pick(3) == 0 || (g.cfg.MapBias && g.pick(3) > 0)) {
 				kind = 'm'
 				// A callee with typed-map outputs mapped over a typed map would give
 				// map<map<..>>: martian accepts the program but panics when it
